@@ -103,6 +103,10 @@ func runHNSWHistory(r *rand.Rand, p hnswParams, o hnswOpts, t *Trace) *Case {
 				}
 				sort.Ints(ids)
 				id = uint32(ids[r.Intn(len(ids))])
+				if ep := comet.VerifHNSWSnapshot(idx).EntryPoint; removed[ep] && r.Intn(2) == 0 {
+					id = ep // update of the (removed, not yet purged) entry point itself
+					t.Stat("hnsw.add_reuse_removed_entry_point")
+				}
 				nextID--
 				t.Stat("hnsw.add_reuse_removed_id")
 			}
@@ -396,7 +400,7 @@ func genC12(r *rand.Rand, t *Trace, thorough bool) {
 	}
 	for it := 0; it < n; it++ {
 		p := rndHNSWParams(r)
-		o := hnswOpts{nops: 10 + r.Intn(50), adversary: true, gauss: it%2 == 0}
+		o := hnswOpts{nops: 10 + r.Intn(50), adversary: true, gauss: it%2 == 0, allowReuse: it%3 == 1}
 		tag := "hnsw.general"
 		if it%3 == 0 { // exactness regime: at most 2*M resident, ef >= that
 			o.smallOnly = true
